@@ -251,9 +251,6 @@ impl<'buf, IO: Io> Connection<'_, 'buf, IO> {
             return Err(Error::Disconnected.into());
         }
         if let Err(err) = write_all(&mut self.io, packet).await {
-            if matches!(err, Error::WriteZero) {
-                return Err(err.into());
-            }
             warn!("QoS0 PUBLISH write failed");
             self.handle_disconnect();
             return Err(err.into());
